@@ -31,6 +31,8 @@ pub struct Pages {
     info_api: RouterInfoApi,
     list_api: RouterListApi,
     _state: Arc<tokio::sync::Mutex<Option<BmpState>>>,
+    sm_metrics: Arc<BmpStateMachineMetrics>,
+    conn_metrics: Arc<BmpTcpInMetrics>,
     /// The phase the state machine is in after the messages (its Debug name).
     pub ingress_id: IngressId,
 }
@@ -105,13 +107,20 @@ impl Pages {
             http::Resources::default(),
             api_path,
             router_info,
-            conn_metrics,
-            sm_metrics,
+            conn_metrics.clone(),
+            sm_metrics.clone(),
             Arc::new(ArcSwap::from_pointee(template)),
             router_states,
             register,
         );
-        Ok(Pages { info_api, list_api, _state: state, ingress_id })
+        Ok(Pages {
+            info_api,
+            list_api,
+            _state: state,
+            sm_metrics,
+            conn_metrics,
+            ingress_id,
+        })
     }
 
     async fn body(
@@ -128,6 +137,16 @@ impl Pages {
                 Some((status, bytes))
             }
         }
+    }
+
+    /// The real Prometheus exposition of the unit's and the state machine's
+    /// metrics (`metrics::Source::append` into a `Target`).
+    pub fn metrics_text(&self, unit_name: &str) -> String {
+        use crate::metrics::{OutputFormat, Source, Target};
+        let mut target = Target::new(OutputFormat::Prometheus);
+        self.conn_metrics.append(unit_name, &mut target);
+        self.sm_metrics.append(unit_name, &mut target);
+        target.into_string()
     }
 
     /// `GET <uri>` through `RouterInfoApi::process_request`.
